@@ -80,6 +80,40 @@ def comparison_grid(ctx):
     return out
 
 
+def kf_negative_id():
+    """witness of known finding C12-negative-id-reached-by-alias"""
+    act = lambda i, **kw: dict({"id": i, "name": "a%d" % i, "object_promise": "object_promise:%d" % i, "description": "d", "party": "party:{P}",
+                                "operation": {"include": ["name"]}}, **kw)
+    cmp_ = lambda ref, v: {"compare": {"left": {"ref": ref}, "operator": "EQUALS", "right": {"value": v}}}
+    return {"standard": "x", "terms": [], "parties": [{"id": 0, "name": "P"}], "pipelines": [],
+            "object_types": [{"id": 0, "name": "T", "attributes": [{"name": "name", "type": "STRING"}, {"name": "l", "type": "NUMERIC_LIST"}]}],
+            "object_promises": [{"id": 0, "name": "op0", "object_type": "object_type:{T}"},
+                                {"id": 1, "name": "op1", "object_type": "object_type:{T}", "context": "thread_group:{g}"}],
+            "actions": [act(0), act(1, context="thread_group:{g}", depends_on="checkpoint:7")],
+            "checkpoints": [{"id": 3, "alias": "c3", "description": "d", "dependencies": [cmp_("action:0.object_promise.name", "x")]},
+                            {"id": 7, "alias": "c7", "description": "d", "context": "thread_group:{g}", "dependencies": [cmp_("$v", 1)]}],
+            "thread_groups": [{"id": -1, "name": "g", "description": "d", "depends_on": "checkpoint:3", "spawn": {"foreach": "object_promise:0.l", "as": "$v"}}]}
+
+
+def pipeline_rewirings(ctx, rng, n):
+    """conformant scenarios WITH aggregation pipelines, scrambled by the same rewirings (attribute retyping and
+    cross-kind retargeting change what the pipelines' sources, steps and outputs resolve to), plus rewirings of the
+    pipelines' own references"""
+    import pipes
+    out = []
+    for i in range(n):
+        s, b = pipes.gen_valid_p(rng, threads=(i % 2 == 1), n_pipes=rng.choice([1, 2]))
+        s2, how = R.rewire(rng, s, rng.choice([1, 2, 3, 5]))
+        for pl in s2.get("pipelines", []):
+            if rng.random() < 0.3:
+                pl["promise"] = R.any_ref(rng, s2, None if rng.random() < 0.5 else ["promise"])
+                how.append("retarget pipeline.object_promise")
+        r = {"spelling": "mixed", "shuffle": i % 2 == 1, "seed": rng.randrange(1 << 30)}
+        out.append(({"rewirings": "; ".join(how)[:160], "render": r, "pipelines": len(s2.get("pipelines", []))},
+                    S.render(s2, random.Random(r["seed"]), r["spelling"], r["shuffle"], False)))
+    return out
+
+
 def run(ctx):
     ok, thms, log = kernel.proof_step(ctx, regen=("tables",))
     rng = random.Random(ctx.seed)
@@ -95,11 +129,23 @@ def run(ctx):
     evaluated = engine.run_items(ctx, items)
     ship = shipped_rewirings(ctx, rng, 600 if quick else 6000)
     ship += comparison_grid(ctx)
+    ship += pipeline_rewirings(ctx, rng, 400 if quick else 4000)
+    kf_doc = kf_negative_id()
+    ship.append(({"known_finding": "C12-negative-id-reached-by-alias"}, kf_doc))
     pool = impl.Pool(ctx)
     ship_res = pool.validate_many([d for _, d in ship])
     pool.close()
     raised = [(it.res, {"rewirings": it.mutator, "render": it.render, "scenario": it.scenario}, it.doc) for it in items if it.res["outcome"] == "raise"]
-    raised += [(r, meta, d) for (meta, d), r in zip(ship, ship_res) if r["outcome"] == "raise"]
+    kf_hit = False
+    for (meta, d), r in zip(ship, ship_res):
+        if r["outcome"] != "raise":
+            continue
+        if meta.get("known_finding") and r["exc"]["type"] == "Exception" and "Invalid ref: thread_group:-" in r["exc"]["msg"]:
+            kf_hit = True
+            continue
+        raised.append((r, meta, d))
+    if kf_hit:
+        ctx.known_finding("an entity with a negative id that is referenced by its name makes validation raise 'Invalid ref: thread_group:-1' (the id spelling the validator normalises to is outside the reference grammar); witness: checks/c12.py kf_negative_id")
     seen = set()
     for res, meta, doc in raised:
         key = (res["exc"]["type"], res["exc"]["where"])
